@@ -357,6 +357,19 @@ def run(ctx) -> None:
         isinstance(x, ast.Attribute) and x.attr == "returncode" for x in ast.walk(n.ast))]
     ctx.floor("C13.R9-success-of-this-pass", len(rc_tests), 1, "tests of a task's return code in EngineTaskController")
     for tn in rc_tests:
+        # success is "the return code IS zero": a truthiness test (`not task.returncode`) also holds for None - the code of a task whose
+        # outcome is not known (still running, lost by the backend) - and stops the observer on an execution that did not succeed
+        atom = tn.ast
+        while isinstance(atom, ast.UnaryOp) and isinstance(atom.op, ast.Not):
+            atom = atom.operand
+        truthy = isinstance(atom, ast.Attribute) and atom.attr == "returncode"
+        loose = isinstance(atom, ast.Compare) and len(atom.ops) == 1 and isinstance(atom.ops[0], (ast.In, ast.NotIn)) and any(
+            isinstance(x, ast.Constant) and x.value is None for x in ast.walk(atom.comparators[0]))
+        ctx.ob("C13.R9-success-of-this-pass", tn.ast, not (truthy or loose),
+               "the return code is compared with a value (%s)" % short(tn.ast, 50) if not (truthy or loose) else
+               "the success test `%s` also holds when the return code is None (the outcome of the task is not known): the observer stops "
+               "after an execution that did not succeed although it has retries left" % short(tn.ast, 60),
+               construct="success test compares the return code with 0")
         recv = [x.value for x in ast.walk(tn.ast) if isinstance(x, ast.Attribute) and x.attr == "returncode"][0]
         if not isinstance(recv, ast.Name):
             ctx.ob("C13.R9-success-of-this-pass", tn.ast, False,
